@@ -93,10 +93,20 @@ def run(chk):
     else:
         chk.violation("C16.filter", fc, "if is_ip_address(hostname): if not self._unsafe: return filtered", "", "scoped cookies are sent to IP hosts")
     # domains / paths enumerated from the request URL
-    if "reversed(hostname.split('.'))" in norm.raw(fc.node) and "request_url.path.split('/')" in norm.raw(fc.node) and "itertools.product(domains, paths)" in norm.raw(fc.node):
+    if "reversed(hostname.split('.'))" in norm.raw(fc.node) and ".split('/')" in norm.raw(fc.node) and "itertools.product(domains, paths)" in norm.raw(fc.node):
         chk.ok("C16.filter", fc, "candidates are the suffixes of the request host x the prefixes of the request path")
     else:
         chk.violation("C16.filter", fc, "domains = accumulate(reversed(hostname.split('.'))) ; paths = accumulate(path.split('/'))", "", "candidate (domain, path) enumeration changed")
+    # RFC 6265 5.1.4: path-match works on the uri-path as sent.  yarl's `.path` is percent-decoded (`%2F` becomes `/`, `%20` a blank), so it
+    # neither equals what the server wrote into Path= nor keeps segment boundaries
+    jar = repo.cls(MOD, "CookieJar")
+    dec = [a for m_ in jar.methods.values() for a in ast.walk(m_.node) if isinstance(a, ast.Attribute) and a.attr == "path" and isinstance(a.value, ast.Name) and a.value.id.endswith("_url")]
+    if dec:
+        for a in dec:
+            chk.violation("C16.filter", a, norm.raw(a), f"{norm.raw(a.value)}.raw_path",
+                          "cookie path scoping uses the percent-decoded URL.path against the raw Path attribute: `Path=/my%20app` set by /my%20app/login is never sent to /my%20app/home, `Path=/admin` is sent to the single-segment target /admin%2Fx, and the default-path of /a%2Fb becomes /a")
+    else:
+        chk.ok("C16.filter", fc, "path-match and default-path use the encoded request path (raw_path)")
     # ---- delete ----------------------------------------------------------------------------------------------------
     removers = {}
     for t in TABLES:
@@ -182,6 +192,7 @@ def run(chk):
     else:
         chk.violation("C16.persist", ld, "_load_json_data", "host_only -> domain='' ; update_cookies ; _expire_cookie", "loading bypasses the acceptance rules or drops scope attributes")
     identity_rules(chk, repo)
+    setcookie_rules(chk, repo)
 
 
 def identity_rules(chk, repo):
@@ -259,3 +270,44 @@ def identity_rules(chk, repo):
         else:
             chk.ok("C16.maxage", c, "the Max-Age value is bounded before it meets float arithmetic")
     chk.expect_count("C16.maxage", n_m, 1, "Max-Age conversions")
+
+
+def setcookie_rules(chk, repo):
+    """Set-Cookie parsing (RFC 6265 5.2): an attribute the parser does not use is skipped, it never ends the parse - attributes after it
+    (Secure, HttpOnly, Domain, Path, Max-Age) belong to the cookie that was already accepted, and losing them widens its scope."""
+    CH = "aiohttp/_cookie_helpers.py"
+    fn = repo.func(CH, "parse_set_cookie_headers")
+    loops = [l for l in ast.walk(fn.node) if isinstance(l, ast.While)]
+    if not loops:
+        chk.analysis_error("C16.setcookie: the attribute loop of parse_set_cookie_headers was not found")
+        return
+    n = 0
+    for b in [x for x in ast.walk(loops[0]) if isinstance(x, ast.Break)]:
+        n += 1
+        cl = PC.pc(b, stop=loops[0], raw=True)
+        units = {str(l) for c in cl if len(c) == 1 for l in c}
+        if {"!(match)", "!(morsel_seen)"} & units or any(u.startswith("!(") and "match" in u for u in units):
+            chk.ok("C16.setcookie", b, "the parse of a header stops only when nothing matches or before the first cookie pair was seen")
+        else:
+            chk.violation("C16.setcookie", b, "break", "continue (ignore this cookie-av)",
+                          "an attribute the parser has no use for ends the parse of the header after the cookie was already accepted: the Secure / HttpOnly / Domain / Path / Max-Age attributes that follow are dropped - `sid=secret; SameParty; Secure; Path=/account` is stored without Secure and with the default path, and is sent over plain http",
+                          path_condition=norm.fmt_cnf(cl)[:300])
+    chk.expect_count("C16.setcookie", n, 3, "break statements in the Set-Cookie attribute loop")
+    # the Expires value runs to the next `;` - the date shapes are judged by the jar's date parser, not by the tokenising pattern
+    src = norm.raw(loops[0])
+    ex = [i for i in ast.walk(loops[0]) if isinstance(i, ast.If) and "'expires'" in norm.raw(i.test).replace('"', "'") and any(isinstance(c, ast.Call) and isinstance(c.func, ast.Attribute) and c.func.attr in ("find", "index", "partition", "split") and c.args and isinstance(c.args[0], ast.Constant) and c.args[0].value == ";" for c in ast.walk(i))]
+    if ex:
+        chk.ok("C16.setcookie", ex[0], "the Expires value is delimited by the next `;` (RFC 6265 5.2), whatever the date looks like")
+    else:
+        chk.violation("C16.setcookie", fn, "expires=<value>", "value = header[start:header.find(';', start)]",
+                      "the Expires value is only as long as the tokenising pattern's hard-coded date shapes allow: `Expires=Thu, 01 Jan 1970 00:00:01 UTC` (or no zone, no week-day, one-digit hour) is cut at the first blank, the cookie the server expired survives as a session cookie and the rest of the date ends the parse, dropping Secure and Path")
+    # RFC 6265 5.2.3: the Domain attribute is lower-cased before it is compared with the (lower-case) request host and stored
+    uc = repo.func(MOD, f"{CJ}.update_cookies")
+    dd = [v for v in ((v if v is not None else getattr(d, "value", None)) for d, v in norm.fn_defs(uc.node).defs.get("domain", [])) if v is not None and "cookie['domain']" in norm.raw(v).replace('"', "'")]
+    if not dd:
+        chk.analysis_error("C16.match: the read of the Domain attribute was not found in CookieJar.update_cookies")
+    elif all(".lower()" in norm.raw(v) for v in dd):
+        chk.ok("C16.match", dd[0], "the Domain attribute is lower-cased where it is read")
+    else:
+        chk.violation("C16.match", dd[0], K.short(dd[0]), "cookie['domain'].lower()",
+                      "the Domain attribute is compared as written: `Domain=Example.COM` from www.example.com is rejected as a foreign domain (cookie lost), and a deletion `sid=; Domain=EXAMPLE.COM; Max-Age=0` is discarded, so the expired cookie keeps being sent")
